@@ -330,9 +330,58 @@ class Function:
         self._parent = None
         if NORMALIZE_LOOPS:
             self._while_to_for()
+            self._split_for_condition()
             self._unbrace()
         if NORMALIZE_ALIAS and self.cfg:
             self._inline_const_aliases()
+
+    # N10: `for (init; A && B; step) body` is `for (init; A; step) { if (!B) break; body }` when A is the comparison that bounds the
+    #      variable the step advances (B is evaluated exactly when A held, immediately before the body, in both forms).
+    def _split_for_condition(self):
+        for i in range(len(self.nodes)):
+            n = self.nodes[i]
+            if n["k"] != "ForStmt" or n.get("cond", -1) < 0 or n.get("inc", -1) < 0 or n.get("body", -1) < 0:
+                continue
+            c = self.strip(n["cond"], casts=False)
+            cn = self.nodes[c]
+            if cn["k"] != "BinaryOperator" or cn.get("op") != "&&":
+                continue
+            a, b = cn["ch"]
+            an = self.nodes[self.strip(a, casts=False)]
+            inc = self.nodes[self.strip(n["inc"], casts=False)]
+            if an["k"] != "BinaryOperator" or an.get("op") not in ("<", "<=", ">", ">=", "!=") or inc["k"] != "UnaryOperator":
+                continue
+            v = self.nodes[self.strip(inc["ch"][0])]
+            if v["k"] != "DeclRefExpr":
+                continue
+            vid = v["decl"].get("id")
+            if not any(self.nodes[x]["k"] == "DeclRefExpr" and self.nodes[x]["decl"].get("id") == vid for x in self.walk(a)):
+                continue
+            loc = dict(loc=self.nodes[b]["loc"], f=self.nodes[b].get("f"))
+            bs = self.strip(b, casts=False)
+            if self.nodes[bs]["k"] == "UnaryOperator" and self.nodes[bs].get("op") == "!":
+                negb = self.nodes[bs]["ch"][0]
+            else:
+                self.nodes.append(dict(k="UnaryOperator", op="!", ch=[b], t="bool", synthetic=True, **loc))
+                negb = len(self.nodes) - 1
+            self.nodes.append(dict(k="BreakStmt", ch=[], synthetic=True, **loc))
+            brk = len(self.nodes) - 1
+            self.nodes.append(dict(k="IfStmt", cond=negb, then=brk, ch=[negb, brk], synthetic=True, **loc))
+            self.nodes[-1]["else"] = -1
+            ifn = len(self.nodes) - 1
+            body = n["body"]
+            if self.nodes[body]["k"] == "CompoundStmt":
+                self.nodes[body]["ch"] = [ifn] + list(self.nodes[body]["ch"])
+            else:
+                self.nodes.append(dict(k="CompoundStmt", ch=[ifn, body], synthetic=True, **loc))
+                nb = len(self.nodes) - 1
+                n["body"] = nb
+                n["ch"] = [nb if x == body else x for x in n["ch"]]
+            oldc = n["cond"]
+            n["cond"] = a
+            n["ch"] = [a if x in (oldc, c) else x for x in n["ch"]]
+            n["normalized"] = "condition split"
+        self._parent = None
 
     # N9: braces around a single statement that is the body of a loop or a branch of an if are dropped (`if (c) { x; }` is `if (c) x;`);
     #     a lone declaration keeps its braces (it has a scope of its own).
